@@ -37,7 +37,7 @@ func near(a, b float64) bool { return math.Abs(a-b) <= tol(a, b) }
 func init() {
 	fw.Register(&fw.Prop{
 		ID: "C11",
-		Rule: "case i mod 20: 0-11 a generated paragraph (words, nested inline boxes with margins/borders/padding, inline-blocks, <br>, preserved newlines; white-space, text-align, line-height, text-indent, font sizes drawn) set in Ahem and laid out by the pango engine at up to 64 container widths (every multiple of font-size/2 from 1 up to 40, then a random sample up to the paragraph's full length + 2), each block compared line by line with the reference line breaker; 12-13 the same with overflow-wrap:anywhere/break-word on plain text or (3 cases in 4) with top-level inline boxes holding one text node each (own margins/borders/padding and font sizes), inline-blocks and <br> between them: an overlong word is cut only where the line has no other opportunity, a word that does not fit the rest of a line moves to the next line whole; 14-15 the same on plain text with the go-text engine; 16-17 direct calls of text.SplitFirstLine (Ahem exact, DejaVu Sans inequalities; pango / go-text) over a sweep of maximum widths, one case in four with overflow-wrap (break-word and anywhere in turn) on a text that does not start its line (isLineStart=false: no word may be cut); 18-19 a plain paragraph in DejaVu Sans at 48 widths, inequalities only (pango / go-text). " +
+		Rule: "case i mod 20: 0-11 a generated paragraph (words, nested inline boxes with margins/borders/padding, inline-blocks, <br>, preserved newlines; white-space, text-align, line-height, text-indent, font sizes drawn; in one paragraph out of three a third of the words are made of 2-5 inline pieces with no white space between them - text runs and one-word inline boxes, adjacent or nested, with their own spacing and font sizes: b<b>o</b>ld, un<em>believ</em><i>a</i>ble) set in Ahem and laid out by the pango engine at up to 64 container widths (every multiple of font-size/2 from 1 up to 40, then a random sample up to the paragraph's full length + 2), each block compared line by line with the reference line breaker; 12-13 the same with overflow-wrap:anywhere/break-word on plain text or (3 cases in 4) with top-level inline boxes holding one text node each (own margins/borders/padding and font sizes), inline-blocks and <br> between them: an overlong word is cut only where the line has no other opportunity, a word that does not fit the rest of a line moves to the next line whole; 14-15 the same on plain text with the go-text engine; 16-17 direct calls of text.SplitFirstLine (Ahem exact, DejaVu Sans inequalities; pango / go-text) over a sweep of maximum widths, one case in four with overflow-wrap (break-word and anywhere in turn) on a text that does not start its line (isLineStart=false: no word may be cut); 18-19 a plain paragraph in DejaVu Sans at 48 widths, inequalities only (pango / go-text). " +
 			"A case is non-trivial when at least one width produced a soft wrap and no comparison of the case failed; distinct = distinct input",
 		N: func(tier string) int {
 			if tier == "thorough" {
@@ -82,13 +82,22 @@ func init() {
 				"ow_anywhere_words_deferred_midline_box":   30 * k,
 				"split_ow_not_line_start_calls":            800 * k,
 				"split_ow_not_line_start_overlong":         60 * k,
+				// words made of several inline pieces: units of three or more pieces generated, soft breaks
+				// taken inside a text node in front of such a word (the text box holding the start of the
+				// word is split again), and those where the first two pieces still fitted: the overflow
+				// shows in the third or a later piece, the re-break has to step back over whole
+				// unbreakable inline pieces
+				"words_of_3_or_more_inline_pieces":             150 * k,
+				"rebreaks_inside_text_before_multi_piece_word": 3000 * k,
+				"rebreaks_past_unbreakable_inline_piece":       500 * k,
 			}
 		},
 		Assumptions: []string{
 			"exact positions are asserted only with the Ahem font (1em square glyphs, ascent 0.8em, descent 0.2em), left-to-right ASCII text, no floats, no hyphenation, no letter/word spacing",
 			"with DejaVu Sans (/usr/share/fonts/truetype/dejavu/DejaVuSans.ttf) only inequalities with 2px slack are asserted",
-			"feature combinations that trigger the open defects of notes/C11.md (D2, D3, D5, D7-D11, D13-D19, G1, G3; D1, D4, D6, D12 are fixed and compared) are not generated or are skipped by the reference model's guards (counted as blocks_skipped_known_defect_*)",
-			"pre-wrap: plain text, single spaces, no space before a forced break; go-text engine: plain text in white-space normal/nowrap; overflow-wrap: pango engine, inline boxes are not nested and hold words only (D17), no word runs across an inline-box edge (D18), no indent (D14); word-break:break-all not compared",
+			"feature combinations that trigger the open defects of notes/C11.md (D2, D3, D5, D7-D11, D11b, D13-D16, D18, D19, G1, G3; D1, D4, D6, D12, D17 are fixed and compared) are not generated or are skipped by the reference model's guards (counted as blocks_skipped_known_defect_*)",
+			"pre-wrap: plain text, single spaces, no space before a forced break; go-text engine: plain text in white-space normal/nowrap; overflow-wrap: pango engine, no word runs across an inline-box edge (D18), no indent (D14); word-break:break-all not compared",
+			"words made of several inline pieces: their boxes hold one run of letters (or one box holding one run), no white space between the two start / end edges of a nested piece (D11b); not generated with overflow-wrap (D18), pre-wrap or the go-text engine",
 		},
 		Batch: 10,
 		// hang detection only; generous because kernel time is charged to the worker when the
@@ -144,6 +153,8 @@ func genCase(r *rand.Rand, i int, tier string) any {
 		ft.Glue = r.Intn(3) == 0
 		ft.FontSize = ft.Spans && r.Intn(4) == 0
 		ft.Hyphen = r.Intn(5) == 0
+		// words made of several inline pieces (b<b>o</b>ld): one paragraph in three
+		ft.Pieces = r.Intn(3) == 0
 	}
 	ws := wpick(r, "normal", 10, "pre-wrap", 2, "pre-line", 3, "nowrap", 1, "pre", 1)
 	engine, ow := "", ""
@@ -279,6 +290,8 @@ func checkAhem(in *c11In) fw.Result {
 			res.Count("ow_"+in.Para.OW+"_blocks", 1)
 			res.Count("ow_"+in.Para.OW+"_words_deferred_midline_box", int64(m.owDeferredBox))
 		}
+		res.Count("rebreaks_inside_text_before_multi_piece_word", int64(m.pieceRebreaks))
+		res.Count("rebreaks_past_unbreakable_inline_piece", int64(m.pieceRebreaksPast))
 		res.Count("lines_compared", int64(len(exp)))
 		soft := 0
 		for i, l := range exp {
@@ -312,6 +325,7 @@ func checkAhem(in *c11In) fw.Result {
 			multi = true
 		}
 	}
+	res.Count("words_of_3_or_more_inline_pieces", int64(m.multiPieceWords()))
 	res.Count("ws_"+in.Para.WS, 1)
 	res.Count("align_"+in.Para.Align, 1)
 	if in.Para.Indent != 0 || in.Para.IndPct != 0 {
